@@ -896,6 +896,50 @@ def missing_obs(tree):
     return info
 
 
+# ---------------------------------------------------------------------------------------------- FixedGaussianNoise._apply
+
+def fixed_apply(tree):
+    """`FixedGaussianNoise._apply(fn)` -> operations applied to the stored noise, in order ("fn", then e.g.
+    "clamp_min(<m>)"): straight-line / guarded re-bindings of a local that ends in `self.noise`."""
+    fn = _method(_cls(tree, "FixedGaussianNoise"), "_apply")
+    if [a.arg for a in fn.args.args] != ["self", "fn"]:
+        _fail("FixedGaussianNoise._apply: signature changed", fn.args)
+    val = {"self.noise": []}      # expression text -> list of operations applied to the original stored noise
+    consts = set()
+    final, returned = None, False
+
+    def ev(e):
+        if _src(e) in val:
+            return list(val[_src(e)])
+        if isinstance(e, ast.Call) and _is_name(e.func, "fn") and len(e.args) == 1 and not e.keywords:
+            return ev(e.args[0]) + ["fn"]
+        if isinstance(e, ast.Call) and isinstance(e.func, ast.Attribute) and not e.keywords:
+            return ev(e.func.value) + [f"{e.func.attr}({', '.join(_src(a) for a in e.args)})"]
+        _fail("FixedGaussianNoise._apply: expression outside the vocabulary", e)
+
+    def run(stmts):
+        nonlocal final, returned
+        for st in stmts:
+            if isinstance(st, ast.Assign) and len(st.targets) == 1 and _src(st.targets[0]) == "self.noise":
+                final = ev(st.value)
+                val["self.noise"] = final
+            elif isinstance(st, ast.Assign) and len(st.targets) == 1 and isinstance(st.targets[0], ast.Name):
+                try:
+                    val[st.targets[0].id] = ev(st.value)
+                except TranslateError:
+                    consts.add(st.targets[0].id)       # a constant (e.g. `min_noise = settings.min_fixed_noise.value(…)`)
+            elif isinstance(st, ast.If) and not st.orelse:
+                run(st.body)                            # a guarded re-binding counts as applied
+            elif isinstance(st, ast.Return) and _src(st.value) in ("super(FixedGaussianNoise, self)._apply(fn)", "super()._apply(fn)"):
+                returned = True
+            else:
+                _fail("FixedGaussianNoise._apply: statement outside the vocabulary", st)
+    run(_body(fn))
+    if final is None or not returned:
+        _fail("FixedGaussianNoise._apply: must assign self.noise and return super()._apply(fn)")
+    return final
+
+
 # ---------------------------------------------------------------------------------------------- property getters
 
 _INPLACE_OK = {"requires_grad_"}        # not a value write; (not used by any getter today)
@@ -991,6 +1035,19 @@ def _mat(e):
     return e
 
 
+def _compose(pre, post):
+    t = "x"
+    k = 0
+    for _o in pre:
+        t = f"extra {k} ({t})"
+        k += 1
+    t = f"fn ({t})"
+    for _o in post:
+        t = f"extra {k} ({t})"
+        k += 1
+    return t
+
+
 def _lstr(x):
     """Lean string literal"""
     return '"' + x.replace("\\", "\\\\").replace('"', '\\"').replace("\n", " ") + '"'
@@ -1027,6 +1084,11 @@ def render(repo):
     fwd_n, fwd_p = likelihood_list(ll, "forward")
     getters = property_getters([nm, gl, mt, ll])
     het = hetero_forward(nm)
+    fapply = fixed_apply(nm)
+    if fapply.count("fn") != 1:
+        _fail(f"FixedGaussianNoise._apply: `fn` must be applied exactly once: {fapply}")
+    fpost = [o for o in fapply[fapply.index("fn") + 1:]]
+    fpre = fapply[:fapply.index("fn")]
     dirc = dirichlet(gl)
     miss = missing_obs(gl)
     from fractions import Fraction
@@ -1050,7 +1112,8 @@ def render(repo):
     facts = {"fixed_forward": fixed, "homo_forward": homo, "marginal": marg, "fixed_forwards_noise": [fwd1, fwd2],
              "multitask_orders": [list(o_il), list(o_nil)], "list_call": [call_n, call_p], "list_forward": [fwd_n, fwd_p],
              "log_marginal_clamp": clamp, "property_getters": [[g, w] for g, w in getters],
-             "hetero": het, "dirichlet": dirc, "missing_obs": miss}
+             "hetero": het, "dirichlet": dirc, "missing_obs": miss,
+             "fixed_apply": fapply}
     getters_lean = ",\n   ".join(f"({_lstr(g)}, [{', '.join(_lstr(x) for x in w)}])" for g, w in getters)
     text = f"""/-
 GENERATED by harness/translate/g7_noise_models.py from $VERIF_REPO/gpytorch/likelihoods/
@@ -1132,6 +1195,14 @@ def listForwardRoute {{L A N : Type}} (liks : List L) (args : List A) (noise : O
   | none => {_route(fwd_p, False)}
   | some ns =>
     {_route(fwd_n, True)}
+
+/-- `FixedGaussianNoise._apply(fn)`: operations on the stored noise in source order: {fapply}
+(`extra k` stands for the k-th operation other than `fn`, about which nothing is assumed). -/
+def fixedApplyGen (fn : α → α) (extra : Nat → α → α) (stored : Array α) : Array α :=
+  stored.map fun x => {_compose(fpre, fpost)}
+
+/-- the operations, by name. -/
+def fixedApplyOps : List String := [{', '.join(_lstr(x) for x in fapply)}]
 
 /-! ### `HeteroskedasticNoise.forward` -/
 
